@@ -6,8 +6,10 @@ VERIF_REPO pointing at the patched tree (evidence/out redirected into the worktr
 Prints one line per seed and exits 1 if a seed is no longer detected. Nothing under /verif/evidence is touched."""
 import concurrent.futures as cf, glob, json, os, subprocess, sys, tempfile
 
+VERIF = os.path.dirname(os.path.dirname(os.path.abspath(__file__)))  # the tree this tool lives in (a snapshot when started through vp run)
+
 sel = sys.argv[1:]
-seeds = sorted(d for d in glob.glob("/verif/seeded/*/") if os.path.exists(d + "patch.diff"))
+seeds = sorted(d for d in glob.glob(VERIF + "/seeded/*/") if os.path.exists(d + "patch.diff"))
 if sel:
     seeds = [d for d in seeds if any(os.path.basename(d.rstrip("/")).startswith(s) for s in sel)]
 tier = os.environ.get("TIER", "quick")
@@ -29,7 +31,7 @@ def one(d):
         env = dict(os.environ, VERIF_REPO=wt, VERIF_EVIDENCE_DIR=os.path.join(wt, ".ev"), VERIF_OUT_DIR=os.path.join(wt, ".out"))
         verdict, info = "MISSED", ""
         for c in checks:
-            p = subprocess.run(["/verif/run_check.py", c, "--tier", tier], cwd="/verif", env=env, capture_output=True, text=True, timeout=7200)
+            p = subprocess.run([VERIF + "/run_check.py", c, "--tier", tier], cwd=VERIF, env=env, capture_output=True, text=True, timeout=7200)
             sigs = [l.strip()[11:] for l in p.stdout.splitlines() if l.strip().startswith("signature:")]
             if p.returncode == 1:
                 return name, prop, "detected", (f"[{c}] " if c != prop else "") + "; ".join(sigs[:3])[:200]
